@@ -874,17 +874,18 @@ static void dump_chrome_header(struct uftrace_dump_ops *ops, struct uftrace_data
 		task = find_task(&handle->sessions, tid);
 		json_escape_str(comm_buf, sizeof(comm_buf), task->comm, false);
 
-		pr_out("{\"ts\":0,\"ph\":\"M\",\"pid\":%d,"
+		/* the separator goes in front: there may be no event after the last one */
+		pr_out("%s{\"ts\":0,\"ph\":\"M\",\"pid\":%d,"
 		       "\"name\":\"process_name\","
-		       "\"args\":{\"name\":\"[%d] %s\"}},\n",
-		       tid, tid, comm_buf);
-		pr_out("{\"ts\":0,\"ph\":\"M\",\"pid\":%d,"
+		       "\"args\":{\"name\":\"[%d] %s\"}}",
+		       i ? ",\n" : "", tid, tid, comm_buf);
+		pr_out(",\n{\"ts\":0,\"ph\":\"M\",\"pid\":%d,"
 		       "\"name\":\"thread_name\","
-		       "\"args\":{\"name\":\"[%d] %s\"}},\n",
+		       "\"args\":{\"name\":\"[%d] %s\"}}",
 		       tid, tid, comm_buf);
 	}
 
-	chrome->last_comma = false;
+	chrome->last_comma = info->nr_tid > 0;
 }
 
 void print_json_escaped_char(char **args, size_t *len, const char c);
